@@ -18,7 +18,10 @@ use emmylua_code_analysis::{
     read_file_with_encoding, uri_to_file_path,
 };
 use lsp_types::Uri;
+#[cfg(not(feature = "verif"))]
 use tokio::sync::{Mutex as AsyncMutex, RwLock};
+#[cfg(feature = "verif")]
+use crate::verif::{Mutex as AsyncMutex, RwLock};
 use tokio_util::sync::CancellationToken;
 
 pub struct WorkspaceManager {
@@ -583,4 +586,20 @@ struct OpenFilesSnapshot {
 enum OpenFileSyncAction {
     RestoreFromDisk(Uri, PathBuf),
     Remove(Uri),
+}
+
+/// Verification-only projection of the private synchronisation state.
+#[cfg(feature = "verif")]
+impl WorkspaceManager {
+    /// (open_file_state_version, reload_generation, all open files as (uri, text))
+    pub fn verif_state(&self) -> (u64, u64, Vec<(Uri, String)>) {
+        (
+            self.open_file_state_version,
+            self.reload_generation.load(Ordering::Acquire),
+            self.open_file_texts
+                .iter()
+                .map(|(uri, text)| (uri.clone(), text.clone()))
+                .collect(),
+        )
+    }
 }
